@@ -23,7 +23,9 @@ fa = {k: v for k, v in tidx.items() if v["false_alarms"]}
 nv = {k: v for k, v in tidx.items() if v["no_verdict"] and not v["false_alarms"]}
 groups = {}
 for k in tidx:
-    g = "evolution round 2" if k.startswith("evo2-") else "evolution round 1" if k.startswith("evo-") else "refactoring twins"
+    g = "evolution round 2" if k.startswith("evo2-") else "evolution round 3" if k.startswith("evo3-") else \
+        "evolution round 4" if k.startswith("evo4-") else "evolution round 1" if k.startswith("evo-") else \
+        "reclassified seeds" if k.startswith("seed") else "refactoring twins"
     groups.setdefault(g, [0, 0, 0])
     groups[g][0] += 1
     groups[g][1] += 1 if tidx[k]["false_alarms"] else 0
